@@ -1,4 +1,162 @@
-/- Model driver for C13 (stub: not built yet). -/
+/-
+Model driver for C13 (text <-> number conversions).  One op per line; byte strings are hex
+(`-` = empty).  The same lines go to harness/c13.cpp, the outputs must be identical.
+
+  variant old|fixovf|fixed   select the coordinate-parser variant          -> "variant <name>"
+  tsvariant <leap 0|1> <range 0|1>   select the timestamp-parser variant (proposed fixes) -> "tsvariant <leap> <range>"
+  c <hex>            string_to_location_coordinate + set_lon        -> "ok <value> <consumed> <full 0|1>" | "err"
+  ci <hex>           (model only) branch tags of that parse         -> "int|dot,frac<n>,skip<n>,exp+|exp-|noexp,div|mul,ovf|noovf,ok|err"
+  f <int32>          append_location_coordinate_to_string           -> text
+  fsum <start> <count> <stride>   checksum of f over start+i*stride -> "<u64>"
+  t <uint32>         Timestamp::to_iso_all                          -> text
+  ti <uint32>        Timestamp::to_iso                              -> text or "-"
+  tsum <start> <count> <stride>   checksum of t                     -> "<u64>"
+  tp <hex>           parse_timestamp(const char**) + Timestamp(str) -> "ok <time_t> <uint32> <consumed>" | "err"
+  topl <hex>         opl_parse_timestamp                            -> "ok <uint32> <consumed>" | "err"
+  oi i64|u32 <hex>   opl_parse_int<T>                               -> "ok <value> <consumed>" | "err"
+  sid <hex>          string_to_object_id                            -> "ok <value>" | "err"
+  sul <hex>          detail::string_to_ulong                        -> "ok <value>" | "err"
+  s2i i32|i64|u64 <hex>   detail::str_to_int<T>                     -> "<value>"
+  out <int64>        OutputBlock::output_int                        -> text
+-/
+import Osmium.Model.Conv
 import Driver.Common
 
-def main : IO Unit := pure ()
+open Osmium.Conv Driver
+
+def txt (bs : List UInt8) : String := String.ofList (bs.map fun b => Char.ofNat b.toNat)
+
+def fnv (h : UInt64) (bs : List UInt8) : UInt64 :=
+  let h := bs.foldl (fun h b => (h ^^^ b.toUInt64) * 1099511628211) h
+  (h ^^^ 10) * 1099511628211
+
+def sumLoop (f : Int → List UInt8) (start stride : Int) : Nat → Nat → UInt64 → UInt64
+  | 0, _, h => h
+  | n + 1, i, h => sumLoop f start stride n (i + 1) (fnv h (f (start + (i : Int) * stride)))
+
+def coordTags (v : Variant) (s : List UInt8) : String :=
+  let s1 := if peek s == cMinus then s.tail else s
+  let a := if peek s1 == cDot then "dot" else "int"
+  match intPart s1 with
+  | none => a ++ ",err-int"
+  | some (r1, s2) =>
+    match fracPart r1 s2 with
+    | none => a ++ ",err-frac"
+    | some (r2, sc, extra, s3) =>
+      let b := s!"{a},frac{8 - sc},skip{extra.length}"
+      match expPart s3 with
+      | none => b ++ ",err-exp"
+      | some (e, _) =>
+        let c := if peek s3 == ce || peek s3 == cE then (if e < 0 then ",exp-" else ",exp+") else ",noexp"
+        let scale : Int := (sc : Int) + e
+        let d := if scale < 0 then ",div" else ",mul"
+        let o := match parseCoord v s with
+          | .error _ => (if scale ≥ 0 && (mulLoop v scale.toNat r2 (if v.fixDigits then extra else []) false).isNone then ",err-mul" else ",err-range")
+          | .ok out => (if out.ovf then ",ovf,ok" else ",noovf,ok")
+        b ++ c ++ d ++ o
+
+def typeRange : String → Option (Int × Int)
+  | "i64" => some (int64Min, int64Max)
+  | "u32" => some (0, 4294967295)
+  | "i32" => some (-2147483648, 2147483647)
+  | "u64" => some (0, 18446744073709551615)
+  | _ => none
+
+structure St where
+  v : Variant := Variant.now
+  leap : Bool := true
+  range : Bool := true
+
+def stepV (st : St) (v : Variant) (line : String) : Variant × String :=
+  match words line with
+  | ["variant", n] =>
+    match n with
+    | "old" => (Variant.old, "variant old")
+    | "fixovf" => (Variant.fixedOvf, "variant fixovf")
+    | "fixed" => (Variant.fixed, "variant fixed")
+    | _ => (v, "bad-op")
+  | ["c", h] =>
+    match unhex h with
+    | none => (v, "bad-op")
+    | some s =>
+      match parseCoord v s with
+      | .error _ => (v, "err")
+      | .ok out => (v, s!"ok {out.value} {s.length - out.rest.length} {b01 (peek out.rest == 0)}")
+  | ["ci", h] =>
+    match unhex h with
+    | none => (v, "bad-op")
+    | some s => (v, coordTags v s)
+  | ["f", x] =>
+    match x.toInt? with
+    | some x => (v, txt (formatCoord x))
+    | none => (v, "bad-op")
+  | ["fsum", a, n, st] =>
+    match a.toInt?, n.toNat?, st.toInt? with
+    | some a, some n, some st => (v, toString (sumLoop formatCoord a st n 0 14695981039346656037))
+    | _, _, _ => (v, "bad-op")
+  | ["t", x] =>
+    match x.toNat? with
+    | some x => (v, txt (toIsoAll x))
+    | none => (v, "bad-op")
+  | ["ti", x] =>
+    match x.toNat? with
+    | some x => (v, let r := toIso x; if r.isEmpty then "-" else txt r)
+    | none => (v, "bad-op")
+  | ["tsum", a, n, st] =>
+    match a.toInt?, n.toNat?, st.toInt? with
+    | some a, some n, some st => (v, toString (sumLoop (fun x => toIsoAll x.toNat) a st n 0 14695981039346656037))
+    | _, _, _ => (v, "bad-op")
+  | ["tp", h] =>
+    match unhex h with
+    | none => (v, "bad-op")
+    | some s =>
+      match parseTimestampV st.leap s, timestampOfStringV st.leap st.range s with
+      | .ok (t, rest), .ok u => (v, s!"ok {t} {u} {s.length - rest.length}")
+      | _, _ => (v, "err")
+  | ["topl", h] =>
+    match unhex h with
+    | none => (v, "bad-op")
+    | some s =>
+      match oplParseTimestampV st.leap st.range s with
+      | .error _ => (v, "err")
+      | .ok (t, rest) => (v, s!"ok {t} {s.length - rest.length}")
+  | ["oi", ty, h] =>
+    match typeRange ty, unhex h with
+    | some (lo, hi), some s =>
+      match oplParseInt lo hi s with
+      | .error _ => (v, "err")
+      | .ok (x, rest) => (v, s!"ok {x} {s.length - rest.length}")
+    | _, _ => (v, "bad-op")
+  | ["sid", h] =>
+    match unhex h with
+    | none => (v, "bad-op")
+    | some s =>
+      match stringToObjectId s with
+      | .error _ => (v, "err")
+      | .ok x => (v, s!"ok {x}")
+  | ["sul", h] =>
+    match unhex h with
+    | none => (v, "bad-op")
+    | some s =>
+      match stringToUlong s with
+      | .error _ => (v, "err")
+      | .ok x => (v, s!"ok {x}")
+  | ["s2i", ty, h] =>
+    match typeRange ty, unhex h with
+    | some (_, hi), some s => (v, toString (strToInt hi s))
+    | _, _ => (v, "bad-op")
+  | ["out", x] =>
+    match x.toInt? with
+    | some x =>
+      match outputInt x with
+      | some r => (v, txt r)
+      | none => (v, "ub")
+    | none => (v, "bad-op")
+  | _ => (v, "bad-op")
+
+def step (st : St) (line : String) : St × String :=
+  match words line with
+  | ["tsvariant", a, b] => ({ st with leap := a == "1", range := b == "1" }, s!"tsvariant {a} {b}")
+  | _ => let (v, out) := stepV st st.v line; ({ st with v := v }, out)
+
+def main : IO Unit := loop step {}
